@@ -485,6 +485,11 @@ func parseFields(data []byte) []string {
 
 func caseSpec() {
 	meta := fmtgen.Meta(rnd)
+	longMeta := rnd.Chance(15)
+	if longMeta {
+		meta = fmtgen.LongMeta(rnd)
+		out.Note("spec-long-metadata")
+	}
 	k := rnd.Intn(12)
 	if rnd.Chance(20) {
 		k = 20 + rnd.Intn(60)
@@ -514,9 +519,15 @@ func caseSpec() {
 		cs[i] = fmtgen.KV{Name: n, Val: rnd.Uint64() >> uint(rnd.Intn(64))}
 	}
 	var p fmtgen.Policy
-	if rnd.Bool() {
+	if rnd.Bool() || longMeta {
 		p = fmtgen.RandPolicy(rnd)
 		out.Note("spec-policy-varied")
+		if p.HdrExtra > 0 {
+			out.Note("spec-header-above-minimum")
+		}
+		if p.HdrJunk {
+			out.Note("spec-header-junk-after-nul")
+		}
 	} else {
 		out.Note("spec-policy-coq")
 	}
@@ -551,7 +562,7 @@ type raceOp struct {
 // preemptions; otherwise the running writer continues until it is done.
 // Returns the schedule actually executed, allocation limit and file size read
 // from disk after every step, the per-writer results and the file.
-func runRace(meta string, init []byte, progs [][]raceOp, plan [][2]int) (sched []int, trace [][2]uint64, res [][]string, final []byte) {
+func runRace(meta string, init []byte, progs [][]raceOp, plan [][2]int, fault int) (sched []int, trace [][2]uint64, res [][]string, final []byte) {
 	dir, err := os.MkdirTemp(root, "r")
 	must(err)
 	defer os.RemoveAll(dir)
@@ -561,6 +572,14 @@ func runRace(meta string, init []byte, progs [][]raceOp, plan [][2]int) (sched [
 	}
 	hl := len(fmtgen.Header(meta))
 	res = make([][]string, len(progs))
+	// under the scheduler every step performs exactly one file-system call, so
+	// the call index of the fault plan is the index of the step
+	if fault >= 0 {
+		vosy.Reset(map[int]syscall.Errno{fault: Pick(rnd, []syscall.Errno{syscall.ENOSPC, syscall.EIO, syscall.ENOMEM, syscall.EMFILE})})
+	} else {
+		vosy.Reset(nil)
+	}
+	defer vosy.Reset(nil)
 	s := vsched.New(false)
 	defer vsched.Stop()
 	for i := range progs {
@@ -619,7 +638,7 @@ func runRace(meta string, init []byte, progs [][]raceOp, plan [][2]int) (sched [
 // raceScenario: every plan with at most two preemptions (a deterministic
 // sample when there are more than maxRuns), one case per distinct schedule, at
 // most maxCases cases.
-func raceScenario(kind, meta string, init []byte, progs [][]raceOp, steps, maxRuns, maxCases int) {
+func raceScenario(kind, meta string, init []byte, progs [][]raceOp, steps, maxRuns, maxCases int, faults bool) {
 	w := len(progs)
 	var plans [][][2]int
 	plans = append(plans, nil)
@@ -637,12 +656,59 @@ func raceScenario(kind, meta string, init []byte, progs [][]raceOp, steps, maxRu
 	}
 	seen := map[string]bool{}
 	cases := 0
-	for pi, plan := range plans {
-		if maxRuns < len(plans) && pi > 40 && rnd.Intn(len(plans)) >= maxRuns {
-			continue
+	type run struct {
+		plan  [][2]int
+		fault int
+	}
+	var runs []run
+	if !faults {
+		for pi, plan := range plans {
+			if maxRuns < len(plans) && pi > 40 && rnd.Intn(len(plans)) >= maxRuns {
+				continue
+			}
+			runs = append(runs, run{plan, -1})
 		}
-		sched, trace, res, final := runRace(meta, init, progs, plan)
-		key := fmt.Sprint(sched)
+	} else {
+		// a failing file-system call: for every plan with at most one preemption,
+		// the call with which the preempted writer resumes and its next two calls
+		// (the window in which another writer has worked on the file the first
+		// one has just grown), plus a few arbitrary positions
+		for _, plan := range plans {
+			if len(plan) > 1 {
+				continue
+			}
+			sched, _, _, _ := runRace(meta, init, progs, plan, -1)
+			var at []int
+			if len(plan) == 1 && plan[0][0] < len(sched) {
+				g := plan[0][0]
+				victim := sched[g-1]
+				for k := g; k < len(sched); k++ {
+					if sched[k] == victim {
+						at = append(at, k, k+1, k+2)
+						break
+					}
+				}
+			}
+			at = append(at, rnd.Intn(len(sched)+1))
+			for _, f := range at {
+				runs = append(runs, run{plan, f})
+			}
+		}
+		if len(runs) > maxRuns {
+			// keep a deterministic sample, spread over the whole list
+			var keep []run
+			for i, r := range runs {
+				if (i*maxRuns)/len(runs) != ((i+1)*maxRuns)/len(runs) {
+					keep = append(keep, r)
+				}
+			}
+			runs = keep
+		}
+	}
+	for _, rn := range runs {
+		plan := rn.plan
+		sched, trace, res, final := runRace(meta, init, progs, plan, rn.fault)
+		key := fmt.Sprint(sched, rn.fault)
 		if seen[key] {
 			continue
 		}
@@ -651,7 +717,10 @@ func raceScenario(kind, meta string, init []byte, progs [][]raceOp, steps, maxRu
 			break
 		}
 		cases++
-		fields := []string{"race", kind, HS(meta)}
+		if rn.fault >= 0 {
+			out.Note("race-" + kind + "-with-fault")
+		}
+		fields := []string{"race", kind, I(int64(rn.fault)), HS(meta)}
 		if init == nil {
 			fields = append(fields, "absent", "h")
 		} else {
@@ -684,7 +753,7 @@ func raceScenario(kind, meta string, init []byte, progs [][]raceOp, steps, maxRu
 
 // caseRaceCreate: writers starting on a file that is absent / empty /
 // header-only, short programs on names that stay within the first page.
-func caseRaceCreate(w, maxRuns, maxCases int) {
+func caseRaceCreate(w, maxRuns, maxCases int, faults bool) {
 	meta := fmtgen.Meta(rnd)
 	var init []byte
 	switch rnd.Intn(5) {
@@ -708,14 +777,14 @@ func caseRaceCreate(w, maxRuns, maxCases int) {
 			progs[i] = append(progs[i], raceOp{add: rnd.Chance(70), name: name, delta: uint64(1 + rnd.Intn(1000))})
 		}
 	}
-	raceScenario("create", meta, init, progs, 7*w, maxRuns, maxCases)
+	raceScenario("create", meta, init, progs, 7*w, maxRuns, maxCases, faults)
 }
 
 // caseRaceGrow: the file exists and its last page is nearly full; the writers
 // race on the SAME new name whose record needs a new page (so that newCounter
 // parks inside extend while another writer links that name), then allocate
 // further records of different sizes.
-func caseRaceGrow(w, maxRuns, maxCases int) {
+func caseRaceGrow(w, maxRuns, maxCases int, faults bool) {
 	meta := fmtgen.Meta(rnd)
 	dir, err := os.MkdirTemp(root, "g")
 	must(err)
@@ -767,7 +836,7 @@ func caseRaceGrow(w, maxRuns, maxCases int) {
 			progs[i] = append([]raceOp{small(i*10 + 9)}, progs[i]...)
 		}
 	}
-	raceScenario("grow", meta, init, progs, 12*w, maxRuns, maxCases)
+	raceScenario("grow", meta, init, progs, 12*w, maxRuns, maxCases, faults)
 }
 
 func main() {
@@ -787,15 +856,19 @@ func main() {
 	}
 	if os.Getenv("VERIF_TIER") == "thorough" {
 		for i := 0; i < 4; i++ {
-			caseRaceCreate(2+i%2, 1<<30, 1<<30)
-			caseRaceGrow(2, 1<<30, 1<<30)
-			caseRaceGrow(3, 3000, 600)
+			caseRaceCreate(2+i%2, 1<<30, 1<<30, false)
+			caseRaceGrow(2, 1<<30, 1<<30, false)
+			caseRaceGrow(3, 3000, 600, false)
+			caseRaceGrow(2, 1<<30, 1<<30, true)
+			caseRaceCreate(2, 1<<30, 1<<30, true)
 		}
 	} else if n >= 50 {
-		caseRaceCreate(2, 1<<30, 60)
-		caseRaceCreate(3, 300, 40)
-		caseRaceGrow(2, 900, 90)
-		caseRaceGrow(2, 900, 60)
+		caseRaceCreate(2, 1<<30, 50, false)
+		caseRaceCreate(3, 300, 30, false)
+		caseRaceGrow(2, 900, 70, false)
+		caseRaceGrow(2, 900, 40, false)
+		caseRaceGrow(2, 120, 90, true)
+		caseRaceCreate(2, 40, 25, true)
 	}
 	for i := 0; i < n; i++ {
 		switch k := rnd.Intn(100); {
